@@ -67,6 +67,8 @@ type Report struct {
 	CheckerCmd  string
 	LevelNote   string
 	Bounded     []string
+	QDir        string
+	Timeout     int
 }
 
 type Outcome struct {
@@ -96,6 +98,15 @@ func (r *Report) Decide(verifDir string, replay func(o *Obligation) (path string
 		seenGroups[g]++
 		solverTime += o.Time
 		_, claimed := led.Groups[g]
+		if o.Bounded != "" {
+			// bounded stand-ins are never counted as proved obligations
+			r.Bounded = append(r.Bounded, fmt.Sprintf("%s: %s [%s]", o.Name, o.Bounded, o.Status))
+			if o.Status != "proved" && claimed {
+				p := writeReplayFile(verifDir, o, o.Model, "bounded check failed on the real code:\n"+o.Output)
+				violationLines = append(violationLines, fmt.Sprintf("VIOLATION property=%s replay=%s obligation=%s (bounded check failed on the real code)", r.Prop, p, o.Name))
+			}
+			continue
+		}
 		if o.Status == "proved" {
 			backend[o.Solver]++
 			if claimed {
@@ -234,9 +245,6 @@ func (r *Report) Decide(verifDir string, replay func(o *Obligation) (path string
 		assumptions = append(assumptions, n)
 	}
 	level := "proof"
-	if len(r.Bounded) > 0 {
-		level = "other"
-	}
 	cov := map[string]any{
 		"obligations":              out.Claimed,
 		"discharged":               out.Discharged,
@@ -254,8 +262,8 @@ func (r *Report) Decide(verifDir string, replay func(o *Obligation) (path string
 		"samples":                  samples,
 		"ledger_groups":            len(led.Groups),
 	}
-	if level == "other" {
-		cov["explanation"] = "some obligations are decided only up to a stated bound: " + strings.Join(r.Bounded, "; ")
+	if len(r.Bounded) > 0 {
+		cov["explanation"] = "obligations/discharged count solver- or census-discharged obligations only; the entries under 'bounded' are bounded stand-ins (not counted as proved): " + strings.Join(r.Bounded, "; ")
 	}
 	for k, v := range r.Extra {
 		cov[k] = v
